@@ -9,6 +9,28 @@ ALL = ["C%02d" % i for i in range(1, 29)]
 
 # pid -> (engine, category, text, note, technique, design_ref)
 CHECKS = {
+    "C01": dict(
+        engine="BV/CapySem",
+        category="model_checking",
+        text="CapySem.tla is a definitional interpreter, written in TLA+ over JSON abstract syntax, "
+             "for the supported fragment: machine integers of several widths with wrapping "
+             "arithmetic, shifts and casts (BV.tla), bool with short-circuit operators, arrays and "
+             "nested structs with copy semantics, functions, if / while / loop, labeled blocks "
+             "with values, break / continue with and without labels, early return, defer (LIFO on "
+             "every exit), index faults (message, status 1, nothing afterwards), exit status = low "
+             "byte of main's result. tools/capygen.py generates seeded, well-typed, determinate "
+             "programs in that fragment; each is rendered to Capy, compiled by the real pipeline, "
+             "linked and executed, and TLC validates every record (program, accepted, printed "
+             "bytes, how it ended, status) against the interpreter (TraceSem.tla). A corrupted "
+             "output byte or status is rejected (binding demonstration in DESIGN.md).",
+        note="quick: 360 programs + 40 ending in an out-of-range index; thorough: 5 000 + 500. "
+             "Not in the fragment yet: pointers, slices, enums / optionals / error unions and "
+             "switch (covered per construct by C02 C10 C11), varargs, floats (C08). Programs "
+             "whose evaluation exceeds the fuel of 400 loop iterations / calls are not judged. "
+             "Trusted: TLC, the generator's determinacy discipline (pure functions inside "
+             "expressions, literal shift amounts, no division), the renderer, gcc as linker.",
+        technique="TLA+ definitional interpreter as oracle + trace validation of executed programs",
+        ref="DESIGN.md section 4 C01"),
     "C02": dict(
         engine="Layout/Memory",
         category="model_checking",
